@@ -1078,7 +1078,23 @@ def emit_fn(contract, verified, info, key_override=None, skip_sigcheck_name=None
     body = rule_enumerate_find_filter_map(body, applied)
     body = rule_for_over_vec(body, applied)
     body = rule_for_range_with_continue(body, applied)
-    body, nloops = splice(body, contract, applied)
+    try:
+        body, nloops = splice(body, contract, applied)
+    except GenError as e:
+        if '@subst anchor' not in str(e) or STAMPING:
+            raise
+        # a statement that a @subst rewrite is anchored on was edited: the body can no longer be read by the verifier.
+        # Only THIS function becomes undecided (its contract is assumed at call sites, as for any stub); the rest of the
+        # unit is still checked.
+        rec['rewrites'] = applied
+        rec['degraded'] = [['body not read: %s' % str(e)[:300]]]
+        rec['loops'] = 0
+        rec['labels'] = re.findall(r'//\s*\[([^\]]+)\]', head)
+        rec['clauses'] = 0
+        rec['unread'] = str(e)[:300]
+        info['functions'].append(rec)
+        info.setdefault('unread', []).append('%s: body not read, function undecided: %s' % (rec['fn'], str(e)[:300]))
+        return '#[verifier::external_body]\n' + head + '\n{ unimplemented!() }\n'
     rec['rewrites'] = applied
     rec['degraded'] = [a['dropped_annotations'] for a in applied if a.get('rule') == 'DEGRADED']
     rec['loops'] = nloops
